@@ -126,6 +126,190 @@ Import ListNotations. Open Scope string_scope.
         ctx.violation("sql-level obligations could not be evaluated", {"broken": "C06_sql shards"}, found_input=False)
 
 
+# custom SQL declared in one dialect (CustomLevel base_dialect_str / CustomRule sql_dialect / dict levels of a
+# CustomComparison) with constructs whose meaning depends on the source dialect
+CUSTOM_SQL = [
+    ("level", "duckdb", "concat(fn_l, sn_l) = concat(fn_r, sn_r)"),                      # concat skips NULLs on DuckDB
+    ("level", "duckdb", "amt_l ^ 2 = amt_r ^ 2"),                                        # ^ is power on DuckDB
+    ("level", "duckdb", "amt_l ** 2 <= amt_r ** 2 + 1"),
+    ("level", "duckdb", "cast(amt_l as integer) // 10 = cast(amt_r as integer) // 10"),  # integer division operator
+    ("level", "duckdb", "amt_l / 4 = amt_r / 4"),                                        # / is float division on DuckDB
+    ("level", "duckdb", "fn_l || sn_l = fn_r || sn_r"),
+    ("level", "duckdb", "ifnull(fn_l, 'x') = ifnull(fn_r, 'x')"),
+    ("level", "duckdb", "lower(fn_l) = lower(fn_r) and length(sn_l) = length(sn_r)"),
+    ("level", "duckdb", "arr_l[1] = arr_r[1]"),                                          # 1-based on DuckDB, 0-based on Spark
+    ("level", "duckdb", "list_contains(arr_l, 'x1') and list_contains(arr_r, 'x1')"),
+    ("level", "sqlite", "ifnull(fn_l, 'x') = ifnull(fn_r, 'x')"),
+    ("level", "sqlite", "substr(fn_l, 1, 2) = substr(fn_r, 1, 2)"),
+    ("level", "sqlite", "amt_l / 4 = amt_r / 4"),
+    ("level", "spark", "concat(fn_l, sn_l) = concat(fn_r, sn_r)"),
+    ("rule", "duckdb", "concat(l.fn, l.sn) = concat(r.fn, r.sn)"),
+    ("rule", "duckdb", "l.amt ^ 2 = r.amt ^ 2"),
+    ("rule", "sqlite", "ifnull(l.fn, 'x') = ifnull(r.fn, 'x')"),
+    ("dict_level", "duckdb", "concat(fn_l, sn_l) = concat(fn_r, sn_r)"),
+    ("dict_level", "duckdb", "amt_l ^ 2 = amt_r ^ 2"),
+]
+CUSTOM_ROWS = [("john", "smith", 3.0, "john", "smith", 3.0), ("john", None, 3.0, "john", None, 3.0), ("john", None, 2.0, "john", "smith", -2.0),
+               (None, "smith", 12.0, "smith", None, 17.0), (None, None, 0.0, None, None, 0.0), ("jo", "hn", 5.0, "j", "ohn", 5.0),
+               ("John", "smith", 7.0, "john", "smyth", 9.0), ("x", "a", 1.0, None, "a", 1.5)]
+
+
+def emitted_custom(kind, base, sql, d):
+    import splink.comparison_level_library as cll
+    import splink.comparison_library as cl
+    from splink.internals.blocking_rule_library import CustomRule
+    if kind == "level":
+        return cll.CustomLevel(sql, base_dialect_str=base).get_comparison_level(d).sql_condition
+    if kind == "rule":
+        return CustomRule(sql, sql_dialect=base).get_blocking_rule(d).blocking_rule_sql
+    comp = cl.CustomComparison(output_column_name="c", comparison_levels=[
+        {"sql_condition": "fn_l is null or fn_r is null", "is_null_level": True}, {"sql_condition": sql, "base_dialect_str": base}, cll.ElseLevel()])
+    return comp.get_comparison(d).comparison_levels[1].sql_condition
+
+
+NULL_AMT_ROWS = [("a", "b", None, "a", "b", 2.0), ("a", "b", None, "a", "b", None)]
+
+
+def eval_on(d, sql, rule, rows=None):
+    """three-valued results of a condition on CUSTOM_ROWS on engine d (duckdb / sqlite)"""
+    rows = CUSTOM_ROWS if rows is None else rows
+    import duckdb
+
+    from harness import splink_util as su
+    cols = "fn_l, sn_l, amt_l, fn_r, sn_r, amt_r"
+    if d == "duckdb":
+        con = duckdb.connect()
+        con.execute("create table t (id integer, fn_l varchar, sn_l varchar, amt_l double, fn_r varchar, sn_r varchar, amt_r double)")
+        ex = lambda q: con.execute(q).fetchall()
+    else:
+        con = su.sqlite_api().con
+        con.execute("create table t (id integer, fn_l text, sn_l text, amt_l real, fn_r text, sn_r text, amt_r real)")
+        ex = lambda q: [tuple(r.values()) for r in con.execute(q).fetchall()]
+    con.executemany("insert into t values (?,?,?,?,?,?,?)", [(i,) + r for i, r in enumerate(rows)])
+    if rule:
+        q = f"select l.id, ({sql}) from (select id, fn_l as fn, sn_l as sn, amt_l as amt from t) l join (select id, fn_r as fn, sn_r as sn, amt_r as amt from t) r on l.id = r.id order by 1"
+    else:
+        q = f"select id, ({sql}) from t order by 1"
+    return [None if v is None else bool(v) for _i, v in ex(q)]
+
+
+def custom_sql_stage(ctx: Ctx):
+    """the dialect a custom level / rule is DECLARED in must be honoured: the SQL emitted for target dialect d has to be the
+    sqlglot transpilation read=<declared dialect> write=d (compared in Coq after strip / synonyms; python AST equality when a
+    construct is outside the modelled fragment).  A disagreement is turned into a concrete record pair on the engine."""
+    import sqlglot
+
+    from splink.internals.dialects import SplinkDialect
+    from translators import c16_levels as L
+    hdr = """From Coq Require Import String Bool ZArith QArith List.
+From Splinkv Require Import Base.TV Model.SqlExpr Model.Levels Model.Backends.
+Import ListNotations. Open Scope string_scope.
+"""
+    terms, metas, pyonly_bad = [], [], []
+    for kind, base, sql in CUSTOM_SQL:
+        for d in ("duckdb", "sqlite", "spark"):
+            if d == "sqlite" and ("arr" in sql):
+                ctx.hist("custom_sql_unsupported_on_dialect", "sqlite:arrays")
+                continue
+            try:
+                got = emitted_custom(kind, base, sql, d)
+            except Exception as e:
+                ctx.obligation(f"custom {kind} [{base}] {sql} on {d}", False, repr(e)[:200])
+                continue
+            gb, gd = SplinkDialect.from_string(base).sqlglot_dialect, SplinkDialect.from_string(d).sqlglot_dialect
+            want = sql if d == base else sqlglot.parse_one(sql, read=gb).sql(dialect=gd)
+            try:
+                generic = sqlglot.parse_one(sql).sql(dialect=gd)
+            except Exception:
+                generic = None
+            ctx.count_case(("custom_sql", kind, base, sql, d), d != base and want != generic,
+                           {"creator": kind, "declared_dialect": base, "target": d, "sql": sql, "emitted": got, "transpiled": want})
+            ctx.hist("custom_sql_pairs", f"{kind}:{base}->{d}")
+            meta = (kind, base, sql, d, got, want)
+            try:
+                terms.append(f"({L.coq_expr(L.parse_sql(got, d))}, {L.coq_expr(L.parse_sql(want, d))})")
+                metas.append(meta)
+            except L.Untranslatable:
+                ctx.hist("custom_sql_checked_by_sqlglot_ast_only", f"{base}->{d}")
+                ctx.obligations += 1
+                try:
+                    same = sqlglot.parse_one(got, read=gd) == sqlglot.parse_one(want, read=gd)
+                except Exception:
+                    same = " ".join(got.split()).lower() == " ".join(want.split()).lower()
+                if same:
+                    ctx.discharged += 1
+                else:
+                    pyonly_bad.append(meta)
+    bad, errs = ctx.eval_cases("C06_custom", hdr, terms, "fun c => same_modulo synonyms (fst c) (snd c)", shard=100, timeout=600)
+    for e in errs:
+        ctx.obligation("custom-sql shard", False, e)
+    ctx.obligations += len(terms)
+    ctx.discharged += (len(terms) - len(bad)) if not errs else 0
+    ctx.cov["custom_sql_obligations"] = len(terms)
+    seen = set()
+    for kind, base, sql, d, got, want in [metas[i] for i in bad] + pyonly_bad:
+        if (kind, base, d) in seen:
+            continue
+        seen.add((kind, base, d))
+        rep = {"case": {"creator": kind, "declared_dialect": base, "target_dialect": d, "sql": sql}, "implementation": got,
+               "specification": f"sqlglot transpilation read={base} write={d}: {want}"}
+        found = False
+        if d in ("duckdb", "sqlite") and "arr" not in sql:
+            try:
+                a, b = eval_on(d, got, kind == "rule"), eval_on(d, want, kind == "rule")
+                k = next((i for i, (x, y) in enumerate(zip(a, b)) if x != y), None)
+                if k is not None:
+                    names = ["fn_l", "sn_l", "amt_l", "fn_r", "sn_r", "amt_r"]
+                    rep["case"]["record_pair"] = dict(zip(names, CUSTOM_ROWS[k]))
+                    rep["implementation"] = {"sql": got, "value": a[k]}
+                    rep["specification"] = {"sql": want, "value": b[k], "why": f"the level was declared in {base}"}
+                    found = True
+            except Exception as e:
+                rep["case"]["engine_error"] = repr(e)[:300]
+                found = True
+        ctx.violation(f"custom {kind} declared in {base} is not translated as {base} SQL for {d}: emitted `{' '.join(got.split())[:90]}`",
+                      rep, {"dialect": d, "custom_sql": True, "creator": kind, "declared_dialect": base}, found_input=found)
+
+
+def custom_engine_stage(ctx: Ctx):
+    """engine-level correspondence for the custom pool: the condition as emitted for target engine d, executed on d, must give
+    the value the ORIGINAL text gives on the engine of its declared dialect, on record pairs with NULLs"""
+    names = ["fn_l", "sn_l", "amt_l", "fn_r", "sn_r", "amt_r"]
+    n = 0
+    reported = set()
+    for kind, base, sql in CUSTOM_SQL:
+        if base not in ("duckdb", "sqlite") or "arr" in sql:
+            continue
+        for d in ("duckdb", "sqlite"):
+            if d == base:
+                continue
+            got_sql = emitted_custom(kind, base, sql, d)
+            for rows, tag in ((CUSTOM_ROWS, None), (NULL_AMT_ROWS if "amt" in sql else [], "null_numeric_argument")):
+                if not rows:
+                    continue
+                ref = eval_on(base, sql, kind == "rule", rows)
+                try:
+                    got = eval_on(d, got_sql, kind == "rule", rows)
+                except Exception as e:
+                    got = [f"error: {e!r}"[:120]] * len(rows)
+                for k, (a, b) in enumerate(zip(ref, got)):
+                    n += 1
+                    ctx.count_case(("custom_engine", kind, base, sql, d, k, tag), a is not False, None)
+                    if a != b:
+                        feats = {"dialect": d, "custom_sql": True, "creator": kind, "declared_dialect": base}
+                        if tag:
+                            feats[tag] = True
+                        if (d, base, tag) in reported:
+                            break
+                        reported.add((d, base, tag))
+                        ctx.violation(f"custom {kind} declared in {base} gives {b!r} on {d} but {a!r} on {base}: {sql}",
+                                      {"case": {"creator": kind, "declared_dialect": base, "target_dialect": d, "sql": sql, "emitted": got_sql,
+                                                "record_pair": dict(zip(names, rows[k]))},
+                                       "implementation": b, "specification": a}, feats)
+                        break
+    ctx.cov["custom_engine_rows"] = n
+
+
 def run(ctx: Ctx):
     ctx.cov["rule"] = ("T: one table row per (dialect, metric role). X: seeded pipelines (random link type, 1-2 tables of 18-30 rows drawn "
                        "from a small entity pool with typos/NULLs, 2-4 comparison creators both engines accept, 1-3 blocking rules, prior "
@@ -145,6 +329,8 @@ def run(ctx: Ctx):
                                       "splink/internals/comparison_level_library.py", "splink/internals/duckdb/database_api.py"]}
     table_stage(ctx, ["duckdb", "sqlite"])
     sql_level_stage(ctx)
+    custom_sql_stage(ctx)
+    custom_engine_stage(ctx)
     from harness import c06_x
     c06_x.correspondence(ctx, ["duckdb", "sqlite"])
     if not ctx.quick:
